@@ -20,14 +20,14 @@ ASSUMPTIONS = [
 
 def cases(tier):
     out = []
-    n = 260 if tier == "quick" else 9000
+    n = 260 if tier == "quick" else 60000
     for r in range(n):
         out.append(("map", r))
-    for r in range(120 if tier == "quick" else 4000):
+    for r in range(120 if tier == "quick" else 30000):
         out.append(("partial", r))
-    for r in range(60 if tier == "quick" else 1500):
+    for r in range(60 if tier == "quick" else 10000):
         out.append(("rect", r))
-    for r in range(60 if tier == "quick" else 1500):
+    for r in range(60 if tier == "quick" else 10000):
         out.append(("chdim", r))
     return out
 
